@@ -224,6 +224,9 @@ def run(ctx, log):
     for z in [0, 1, 7, 2 ** 60 - 1, 2 ** 59, 65536 * 3 + 1] + [rand_int(rng) for _ in range(20)]:
         if z >= 0:
             edits.append(("stel a = [%d]; stel b = a[0] + 0; [b == %d, b != %d, b]" % (z, z, z), "OK #0=A[b1,b0,i%d]" % z))
+    edits += [("functie leeg() { }; \"de waarde\"; stel a = leeg(); stel b = leeg()", "OK #0=S%s" % nlast.cps("de waarde")), ("functie f() { 2 }; 1.5 + 1.0; stel u = f(); stel v = f()", "OK #0=F4004000000000000"),
+              ("functie g(n) { stel l = [n] }; [0.5 + 0.25, \"x\"]; stel p = g(1); stel q = g(2)", "OK #0=A[#1=F3fe8000000000000,#2=S120]"), ("functie kwadraat(n) { n * n }; [kwadraat(2), \"klaar\"]; stel laatste = kwadraat(4)", "OK #0=A[i4,#1=S%s]" % nlast.cps("klaar")),
+              ("functie niets() { }; stel t = \"tekst\"; t; stel w = niets(); stel x = niets()", "OK #0=S%s" % nlast.cps("tekst"))]
     eo = vlib.nlh("eval", ["1000 " + vlib.hexs(src) for src, _ in edits], tag="c15e")
     for (src, exp), o in zip(edits, eo):
         ctx.seen(src)
